@@ -629,7 +629,7 @@ func checkC15(c *Check) {
 					return false
 				}
 				for _, rs := range rangesIn(rb.FI.Decl.Body, func(rs *ast.RangeStmt) bool { return objOf(info, rs.X) == listObj }) {
-					if posIn(rs.Body, n.Pos()) {
+					if within(rs.Body, n) {
 						return true
 					}
 				}
@@ -665,7 +665,7 @@ func checkC15(c *Check) {
 		}) {
 			if pa != nil && objOf(info, l.List) == pa {
 				addrLoop = l
-			} else if addrLoop != nil && posIn(addrLoop.Body, l.Stmt.Pos()) {
+			} else if addrLoop != nil && within(addrLoop.Body, l.Stmt) {
 				entLoop = l
 			}
 		}
